@@ -131,7 +131,7 @@ package measurement
 //@   loop 5
 //@     mustcall Profile.ScaleN scaled: $arg0 == p when true
 //@   loop 6
-//@     mustcall Scale ratio: $arg0 == 1 && $arg1 == st.Unit when sampleType[i] != nil
+//@     mustcall Scale ratio: $arg0 == 1 && $arg1 == atiter(6, st.Unit) && $arg2 == sampleType[i].Unit when sampleType[i] != nil
 //@     invariant ones: forall k int :: 0 <= k && k < $i && sampleType[k] == nil ==> same(ratios[k], 1.0)
 //@     step unit_unified: atiter(6, sampleType[i] != nil) ==> p.SampleType[i].Unit == sampleType[i].Unit
 
